@@ -253,3 +253,38 @@ func VH_replEcho() {
 	verifRunMain()
 	verifAssert("script-does-not-echo", verifProcStdout() == "" && verifProcExit() == 0)
 }
+
+// VH_replRepeat: state that builds up over a session — the same line n times, then any line:
+// the last response must still be what a fresh session gives.
+func VH_replRepeat(n int) {
+	rep := replPool[verifChoice(len(replPool))]
+	last := replPool[verifChoice(len(replPool))]
+	verifSetArgs("borno")
+	verifSetStdinText(last)
+	verifRunMain()
+	fresh, freshErr := verifProcStdout(), verifProcStderr()
+	verifSetArgs("borno")
+	verifSetStdinText(rep)
+	verifRunMain()
+	one, oneErr := verifProcStdout(), verifProcStderr()
+	if !(strings.HasSuffix(one, ">> ") && strings.HasSuffix(fresh, ">> ")) {
+		verifAssert("single-line-session-shape", false)
+		return
+	}
+	wantOut, wantErr := "", ""
+	lines := make([]string, 0, n+1)
+	for i := 0; i < n; i++ {
+		lines = append(lines, rep)
+		wantOut += one[:len(one)-3]
+		wantErr += oneErr
+	}
+	lines = append(lines, last)
+	wantOut += fresh
+	wantErr += freshErr
+	verifSetArgs("borno")
+	verifSetStdinText(lines...)
+	verifRunMain()
+	verifAssert("session-exits-0", verifProcExit() == 0)
+	verifAssert("every-line-responds-as-in-a-fresh-session", verifProcStdout() == wantOut)
+	verifAssert("every-line-diagnosed-as-in-a-fresh-session", verifProcStderr() == wantErr)
+}
